@@ -24,6 +24,9 @@ STYLIZE_NEG = 0  # Text.stylize(start < -len) stores a negative span start; rend
 GETITEM = 0  # Text.__getitem__(int) drops the base style, and all spans for a negative index
 DIVIDE_ORDER = 0  # Text.divide re-orders spans through its value-keyed `order` dict (a split remainder equal to a later span)
 ALIGN_NEG = 0  # Text.align pads by a negative excess (text wider than the width): pad_left shifts the spans off their characters
+RSTRIP_END_CHARS = 1  # Text.rstrip_end compares the CHARACTER count with the cell width (pending_fixes/C08-rstrip-end-counts-cells.diff
+#                       makes it cell_len); separate request argument of text_rstrip_end, Lean: first argument of Text.rstripEndW
+RSTRIP_END_CHARS = int(__import__("os").environ.get("VERIF_C05_RSTRIP_END_CHARS", RSTRIP_END_CHARS))  # development aid, as VERIF_C05_FLAGS
 FLAGS = "".join(str(x) for x in (CTOR_LEN, CROP_ENDS, STYLIZE_NEG, GETITEM, DIVIDE_ORDER, ALIGN_NEG))
 import os as _os
 
@@ -31,8 +34,8 @@ import os as _os
 FLAGS = _os.environ.get("VERIF_C05_FLAGS", FLAGS)
 
 STYLES = L.STYLE_NAMES[1:7]
-CHARS = ["a", "b", "c", " ", " ", "\t", "\n", "あ", "̀", "\r", "\x08", "\x0b", "\x0c", "\x07", "…", "x"]
-PLAIN_CHARS = ["a", "b", " ", "\t", "\n", "あ", "̀", "x"]
+CHARS = ["a", "b", ".", "*", "c", " ", " ", "\t", "\n", "あ", "̀", "\r", "\x08", "\x0b", "\x0c", "\x07", "…", "x"]
+PLAIN_CHARS = ["a", "b", ".", "(", " ", "\t", "\n", "あ", "̀", "x"]
 OVERFLOWS = [None, None, None, "fold", "crop", "ellipsis", "ignore"]
 
 
@@ -135,7 +138,7 @@ def gen_op(rng, n):
         return (k, gen_spec(rng, ctl=False, maxlen=2), [gen_spec(rng, ctl=False, maxlen=3) for _ in range(rng.randint(0, 2))],
                 [gen_spec(rng, ctl=False, maxlen=3) for _ in range(rng.randint(0, 2))])
     if k == "split":
-        return (k, rng.choice(["\n", "\n", "\t", " ", "a", "ab", "aa", "a a", "  "]), rng.random() < 0.5, rng.random() < 0.5, rng.randint(0, 5))
+        return (k, rng.choice(["\n", "\n", "\t", " ", "a", "ab", "aa", "a a", "  ", ".", "*", "a.", "(", "|", "+", "\\", "[a]", "$", "^"]), rng.random() < 0.5, rng.random() < 0.5, rng.randint(0, 5))
     if k == "divide":
         if rng.random() < 0.85:
             offs = sorted_offsets(rng, n)
@@ -226,6 +229,7 @@ class Sink:
 
     def __init__(self, ctx=None):
         self.ctx = ctx
+        self.operands = []
 
     def case(self, fn, args, ans, shape=None, sample=None):
         if self.ctx is not None:
@@ -285,6 +289,11 @@ def step(sink, t, r, op, first=False):
     n = len(r.cells)
     before = L.enc_text(t)
     none = lambda kind: None  # noqa: E731
+
+    def build_(spec):
+        u, ur = build(spec)
+        sink.operands.append(u)  # re-observed after this and every later step (aliasing)
+        return u, ur
     neg = any(sp.start < 0 for sp in t._spans)
     base_lost = t.style != r.base
 
@@ -307,7 +316,7 @@ def step(sink, t, r, op, first=False):
         judge_("append(str)", t, r, none)
         return t, r
     if k in ("append_t", "append_text"):
-        u, ur = build(op[1])
+        u, ur = build_(op[1])
         if broken(u, ur):  # operand itself broken by a constructor defect: not this operation's failure
             raise Stop()
         ue = L.enc_text(u)
@@ -327,7 +336,7 @@ def step(sink, t, r, op, first=False):
             res = py_ans(lambda: t + op[1])
             r = L.ref_append_str(r, op[1], None)
         else:
-            u, ur = build(op[1])
+            u, ur = build_(op[1])
             if broken(u, ur):
                 raise Stop()
             res = py_ans(lambda: t + u)
@@ -364,7 +373,7 @@ def step(sink, t, r, op, first=False):
                 enc_parts.append(enc_part(p))
                 cells += [(c, () if p[2] is None else (p[2],)) for c in L.strip_ctl(p[1])]
             else:
-                u, ur = build(p[1])
+                u, ur = build_(p[1])
                 if broken(u, ur):
                     raise Stop()
                 real_parts.append(u)
@@ -382,10 +391,10 @@ def step(sink, t, r, op, first=False):
     if k in ("join_sep", "join_in"):
         if k == "join_sep":
             sep, sr = t, r
-            items = [build(s) for s in op[1]]
+            items = [build_(s) for s in op[1]]
         else:
-            sep, sr = build(op[1])
-            items = [build(s) for s in op[2]] + [(t, r)] + [build(s) for s in op[3]]
+            sep, sr = build_(op[1])
+            items = [build_(s) for s in op[2]] + [(t, r)] + [build_(s) for s in op[3]]
         if any(broken(u, ur) for u, ur in items) or broken(sep, sr):
             raise Stop()
         res = py_ans(lambda: sep.join([u for u, _ in items]))
@@ -424,6 +433,7 @@ def step(sink, t, r, op, first=False):
         for piece, pr in zip(val, exp):
             judge_(site, piece, pr, lambda kind: "divide-order-alias" if kind == "style-order" else None)
         i = pick % len(val)
+        sink.operands += [x for j, x in enumerate(val) if j != i]  # the sibling pieces stay under observation
         return val[i], exp[i]
     if k == "slice":
         _, a, b = op
@@ -562,8 +572,15 @@ def step(sink, t, r, op, first=False):
         return t, r
     if k == "rstrip_end":
         res = py_ans(lambda: t.rstrip_end(op[1]))
-        single("text_rstrip_end", [str(op[1])], (res[0], t if res[0] == "ok" else res[1]))
-        r = L.ref_rstrip_end(r, op[1])
+        n_before = len(r.cells)
+        single("text_rstrip_end", [str(op[1]), str(RSTRIP_END_CHARS)], (res[0], t if res[0] == "ok" else res[1]))
+        # how MANY trailing blanks go is property C08/C02's question (characters vs cells, see RSTRIP_END_CHARS) and is pinned
+        # here by the model-vs-code comparison; C05 asks that only trailing whitespace goes and everything else stays attached
+        removed = n_before - len(t.plain)
+        tail_ws = len(r.s()) - len(r.s().rstrip())
+        if not (0 <= removed <= tail_ws):
+            raise Failure("rstrip_end", None, f"removed {removed} characters of {r.s()!r}, which ends in {tail_ws} whitespace characters")
+        r = L.ref_right_crop(r, removed)
         judge_("rstrip_end", t, r, none)
         return t, r
     raise AssertionError("unknown op " + repr(op))
@@ -583,11 +600,28 @@ def run_history(sink, spec, ops):
         sample=f"Text({s!r}, style={base!r}, spans={spans!r})" if sink.ctx else None,
     )
     judge(sink, "Text()", t, r, lambda kind: "ctor-length-before-strip" if kind == "len" and L.strip_ctl(s) != s and len(t) == len(s) else None)
+    kept = []  # (how it was obtained, object, state snapshot): earlier objects, re-observed after every later step
     for op in ops:
+        prev, prev_enc = t, L.enc_text(t)
+        sink.operands = []
         try:
             t, r = step(sink, t, r, op)
         except Stop:
             return
+        if t is not prev:
+            # the operation returned a new object: the one it was called on must be untouched, and stays observed
+            now = L.enc_text(prev)
+            if now != prev_enc:
+                raise Failure(op[0] + " changed the text it was called on", None, f"state before {prev_enc} after {now}")
+            kept.append(("receiver of " + op[0], prev, prev_enc))
+        for u in sink.operands:
+            kept.append(("operand/sibling of " + op[0], u, L.enc_text(u)))
+        kept = [k for k in kept if k[1] is not t][-6:]
+        for how, obj, snap in kept:
+            now = L.enc_text(obj)
+            if now != snap:
+                raise Failure("aliasing", None, f"{how}: editing a text derived from it changed this object's state from {snap} to {now}")
+        sink.passed("aliasing")
         if t._length < 0:
             return
 
@@ -657,7 +691,7 @@ def run(ctx):
     ]
 
     # 1. bounded-exhaustive single operations on small states (one representative per class the code branches on)
-    small_strings = ["", "a", "ab", "a\tb", "a\n", "\tあ", "ab\rc", "a b ", "aa", "\x08", "a\t\nb\t"]
+    small_strings = ["", "a", "ab", "a\tb", "a\n", "\tあ", "ab\rc", "a b ", "aa", "\x08", "a\t\nb\t", "a.b.", "あ  ", "à  ", "a(*b"]
     small_spans = lambda n: [[], [(0, n, "s1")], [(0, max(n - 1, 0), "s1"), (min(1, n), n, "s2")], [(0, n, "s1"), (n // 2, n, "s2"), (0, n, "s1")]]  # noqa: E731
     n_sys = 0
     for s in small_strings:
@@ -673,7 +707,7 @@ def run(ctx):
                 ops1 += [("truncate", w, ov, pad) for w in range(0, n + 3) for ov in (None, "crop", "ellipsis", "ignore") for pad in (False, True)]
                 ops1 += [("align", m, w, "*") for m in ("left", "center", "right") for w in range(0, n + 4)]
                 ops1 += [(k, c, "-") for k in ("pad", "pad_left", "pad_right") for c in (0, 1, 2)]
-                ops1 += [("split", sep, incl, blank, 0) for sep in ("\n", "\t", "a", " ") for incl in (False, True) for blank in (False, True)]
+                ops1 += [("split", sep, incl, blank, 0) for sep in ("\n", "\t", "a", " ", ".", "(", "*", "a.") for incl in (False, True) for blank in (False, True)]
                 ops1 += [("append_str", x, st) for x in ("", "z", "\r", "z\x08y") for st in (None, "s3")]
                 if base == "":
                     ops1 += [("slice", a, b) for a in [None] + list(rng_i) for b in [None] + list(rng_i)]
